@@ -53,6 +53,7 @@ def gen_cases(tier, seed):
             "by_class": {}}
     for c in cases:
         dist["by_class"][c["cls"]] = dist["by_class"].get(c["cls"], 0) + 1
+    gen.sprinkle_adv(cases)
     meta = {"rule": "every ordered tree shape with <= %d nodes x every node x commonancestors argument lists (none, the "
                     "node, every pair, every triple on small shapes); a quarter of the trees is reached through a "
                     "mutation history (wrong attachments, moves, children reassignments) before the attributes are read; "
